@@ -271,6 +271,80 @@ func RuleW2(c *Ctx) {
 			}
 		}
 	}
+	// line-comment mode: from the entry state until two further comment signs in a row have
+	// been read (which opens a block comment). In line mode every line end and the end of
+	// input must end the comment and be handed back to the interrupted state.
+	// Block-comment states are those that reject the end of input (an unterminated block);
+	// line mode is everything reachable from the entry without entering one of them.
+	block := map[int]bool{}
+	for id := range r.CommentStates {
+		for _, p := range m.States[id].Paths {
+			if p.Out == scanpds.OutErr && p.Set.Has(0) {
+				block[id] = true
+			}
+		}
+	}
+	lineMode := map[int]bool{}
+	var work []int
+	for _, st := range m.States {
+		for _, p := range st.Paths {
+			pushedCur := false
+			for _, e := range p.Effects {
+				if e.Kind == scanpds.EPushCur {
+					pushedCur = true
+				}
+				if e.Kind == scanpds.EGoto && pushedCur {
+					work = append(work, e.Fn)
+				}
+			}
+		}
+	}
+	for len(work) > 0 {
+		w := work[len(work)-1]
+		work = work[:len(work)-1]
+		if lineMode[w] || block[w] {
+			continue
+		}
+		lineMode[w] = true
+		for _, p := range m.States[w].Paths {
+			for _, e := range p.Effects {
+				if e.Kind == scanpds.EGoto {
+					work = append(work, e.Fn)
+				}
+			}
+		}
+		for _, in := range m.States[w].Inlines {
+			work = append(work, in)
+		}
+	}
+	if len(block) == 0 {
+		sc.Undecided("block-states", "-", "no comment state rejects the end of input: cannot tell block comments from line comments")
+	}
+	var lmIDs []int
+	for id := range lineMode {
+		lmIDs = append(lmIDs, id)
+	}
+	sort.Ints(lmIDs)
+	for _, id := range lmIDs {
+		st := m.States[id]
+		for _, p := range st.Paths {
+			if p.Set.And(nl).Empty() {
+				continue
+			}
+			key := "line-end:" + st.Name + "[" + p.Guards + "]"
+			pops := 0
+			for _, e := range p.Effects {
+				if e.Kind == scanpds.EPopGoto {
+					pops++
+				}
+			}
+			if pops == 1 && p.Out == scanpds.OutRedispatch && p.Set.SubsetOf(nl) {
+				sc.Holds(key, c.P.Pos(p.Pos), "a line end / end of input ends the line comment and is re-dispatched to the interrupted state")
+			} else {
+				sc.Violation(key, c.P.Pos(p.Pos), "inside a line comment a line end (or end of input) is swallowed instead of ending the comment and being handed to the interrupted state: the following line disappears into the comment — "+m.Describe(st, p))
+			}
+		}
+	}
 	// entries: the arm that pushes the current step goes to a comment state and does nothing else
 	for _, st := range m.States {
 		for _, p := range st.Paths {
